@@ -133,8 +133,20 @@ def forget_composeinfo(desc, version):
 def down_treeinfo_table(table, version):
     t = copy.deepcopy(table)
     t["header"]["version"] = version
-    if tuple(int(x) for x in version.split(".")) < (1, 1):
+    vt = tuple(int(x) for x in version.split("."))
+    if vt < (1, 1):
         t["header"].pop("type", None)
+    if vt <= (0, 3):
+        t["product"] = t.pop("release")              # legacy section name
+        if t["tree"]["arch"] == "src":
+            # a 0.3 source tree names its (source) packages and repository plainly
+            for sec, opts in t.items():
+                if sec.startswith("variant-") or sec.startswith("addon-"):
+                    if "packages" in opts or "repository" in opts:
+                        return None                   # binary paths in a source tree: not expressible in 0.3
+                    for k in ("packages", "repository"):
+                        if "source_" + k in opts:
+                            opts[k] = opts.pop("source_" + k)
     return t
 
 
@@ -202,4 +214,7 @@ def impl_upgrade(case):
     if case["fmt"] == "composeinfo":
         from suites.docs_composeinfo import describe
         desc = describe(o)
+    if case["fmt"] == "treeinfo":
+        from suites.docs_treeinfo import describe_ti
+        desc = describe_ti(o)
     return ["ok", t1 == t2, header, desc, t1]
